@@ -19,7 +19,7 @@ def build_sim(ctx, cfg):
     _, _, sps, _ = sopht_modules()
     kind = cfg["kind"]
     shape = tuple(cfg["shape"])
-    common = dict(x_range=1.0, kinematic_viscosity=0.1, real_t=ctx.real_t, num_threads=cfg.get("threads", 2))
+    common = dict(x_range=cfg.get("x_range", 1.0), kinematic_viscosity=0.1, real_t=ctx.real_t, num_threads=cfg.get("threads", 2))
     with warnings.catch_warnings():
         warnings.simplefilter("ignore")
         if kind == "ns2d":
@@ -118,21 +118,23 @@ class Cut:
         return self.inner(*a, **k)
 
 
-def run_step(ctx, cfg, tag="", cuts=True, stub_poisson=False, init=None, trivial_fft=False):
+def run_step(ctx, cfg, tag="", cuts=True, stub_poisson=False, init=None, trivial_fft=False, U=None, scalar_tag=None, step=True):
     """returns dict with sim, initial state copies, cut records and scalars"""
     sim = build_sim(ctx, cfg)
     classified = symbolise_sim(ctx, sim, tag, trivial_fft=trivial_fft)
     dim = len(cfg["shape"])
-    dt = ctx.scalar(tag + "dt", positive=True, default=0.01)
-    nu = ctx.scalar(tag + "nu", positive=True, default=0.1)
+    st = tag if scalar_tag is None else scalar_tag
+    dt = ctx.scalar(st + "dt", positive=True, default=0.01)
+    nu = ctx.scalar(st + "nu", positive=True, default=0.1)
     sim.kinematic_viscosity = nu
     rho = 1.0
     if cfg["kind"] != "passive":
-        rho = ctx.scalar(tag + "rho", positive=True, default=1.5)
+        rho = ctx.scalar(st + "rho", positive=True, default=1.5)
         sim.flow_density = rho
-    t0 = ctx.scalar(tag + "t0", default=0.25)
+    t0 = ctx.scalar(st + "t0", default=0.25)
     sim.time = t0
-    U = [ctx.scalar(f"{tag}U{a}", default=0.3 * (a + 1)) for a in range(dim)] if cfg.get("free_stream") else [0.0] * dim
+    if U is None:
+        U = [ctx.scalar(f"{st}U{a}", default=0.3 * (a + 1)) for a in range(dim)] if cfg.get("free_stream") else [0.0] * dim
     out = dict(sim=sim, dt=dt, nu=nu, rho=rho, t0=t0, U=U, classified=classified, dx=float(sim.dx), dim=dim)
     wname = "primary_field" if cfg["kind"] == "passive" else "vorticity_field"
     if init is not None:
@@ -164,6 +166,8 @@ def run_step(ctx, cfg, tag="", cuts=True, stub_poisson=False, init=None, trivial
 
             ps.vector_field_solve = fake
             ps.solve = fake
+    if not step:
+        return out
     if cfg.get("free_stream"):
         sim.time_step(dt, free_stream_velocity=U)
     else:
